@@ -1,8 +1,9 @@
 #!/bin/sh
-# usage: tools_seed.sh <worktree> <patch> <pid> [pid...]   -- apply a seeded patch in its scratch worktree and run checks against it
+# usage: tools_seed.sh <worktree> <patch> <pid> [pid...]   -- apply a seeded patch to a scratch COPY of /repo's tree and run checks against it
 wt="$1"; patch="$2"; shift 2
-git -C "$wt" checkout -q -- src && git -C "$wt" apply "$patch" || { echo "APPLY FAILED"; exit 3; }
+tmp=$(mktemp -d /tmp/vfseed.XXXXXX)
+mkdir -p "$tmp/src" && cp -r /repo/src/experimaestro "$tmp/src/" && (cd "$tmp" && patch -p1 -s --no-backup-if-mismatch -i "$patch") || { echo "APPLY FAILED"; rm -rf "$tmp"; exit 3; }
 for pid in "$@"; do
-  VERIF_REPO="$wt" /verif/vf check "$pid" --no-write | grep -v '^NOTE' | head -${LINES_MAX:-12}
+  VERIF_REPO="$tmp" /verif/vf check "$pid" --no-write | grep -v '^NOTE' | head -${LINES_MAX:-12}
 done
-git -C "$wt" checkout -q -- src
+rm -rf "$tmp"
